@@ -2,7 +2,7 @@
    Partial by nature (stack depth, wall clock, pest / regex / serde_json internals are runtime
    behaviour observed by the harness); what is proved: *)
 From Coq Require Import List NArith ZArith Bool.
-From JP Require Import Base Ast Eval ValueModel Robust IndexFacts Peg Build PegTerm TermCheck.
+From JP Require Import Base Ast Eval ValueModel Robust IndexFacts Peg Build PegTerm TermCheck FuelIndep.
 From JP.gen Require Import Grammar.
 Import ListNotations.
 Open Scope Z_scope.
@@ -26,9 +26,18 @@ Proof. exact parse_never_out_of_fuel. Qed.
 Print Assumptions C08_parser_never_out_of_fuel.
 
 Theorem C08_matcher_terminates_within_fuel : forall s : str,
-  parse_rule grammar (parse_fuel s) R_main s <> OutOfFuel.
+  Peg.run grammar (parse_fuel s) (ECall R_main) ANonAtomic s 0 <> OutOfFuel.
 Proof. exact main_never_out_of_fuel. Qed.
 Print Assumptions C08_matcher_terminates_within_fuel.
+
+(* ... and the ANSWER of the parser model is independent of its fuel, for every input string: with any amount of fuel
+   beyond what parse_query supplies the result (accepted with this AST / rejected) is the same.  So a rejection by the
+   model is never an artefact of bounded recursion: the matcher's outcome is stable (run_mono), and the walk of parser.rs
+   only ever descends into the pair tree, whose depth is at most the fuel the matcher used (run_depth, walk_stable) *)
+Theorem C08_parse_answer_independent_of_fuel : forall (s : str) (k : nat),
+  parse_model (parse_fuel s + k) s = parse_query s.
+Proof. exact parse_model_fuel_independent. Qed.
+Print Assumptions C08_parse_answer_independent_of_fuel.
 
 (* with start, end and step in the I-JSON range and an array shorter than 2^62, none of the
    additions, subtractions and negations of process_slice leaves the i64 range (no overflow panic
